@@ -101,6 +101,9 @@ def export_to_yaml(statechart: Statechart, filepath: str = None) -> str:
     output = StringIO()
 
     yml = yaml.YAML(typ='safe', pure=True)
+    # Block style only: in flow style, some scalars (e.g. starting with "?" or ":") are written
+    # without quotes and cannot be loaded back
+    yml.default_flow_style = False
     yml.dump(export_to_dict(statechart), output)
 
     if filepath:
